@@ -11,6 +11,9 @@
  R4 the weight-dictionary length check raises before the weights are used;
  R5 P = sum(w * [margin > 0]) under the hard threshold, weights ordered by sorted contest key;
  R6 client: a model is required, every requested level is computed, one frame is stored, columns come from positions 0/1/2.
+ R7 the stored summary frame is built from this call's estimates only (restated from C12.R7.summary-fresh: a frame continued from an
+    earlier summary keeps that call's prediction next to this call's bounds - pred outside [lower, upper] and outside
+    [base, base + total] as soon as two summaries with other weights or another base are asked of one run).
 """
 from __future__ import annotations
 
@@ -357,3 +360,8 @@ def check(ctx):
               and any("upper_" in k and "[2]" in v for k, v in cols.items()))
     ctx.ob("C08.R6.columns", f"{mr.qualname}|pred/lower/upper from positions 0/1/2", okcols, mr.where(),
            "agg_pred <- [0], lower_a <- [1], upper_a <- [2]" if okcols else f"column mapping is {cols}")
+    # ---- R7 the stored frame is this call's -------------------------------------------------------------------
+    # (a), (b) and (c) of the statement are about the numbers the client RETURNS AND STORES for one call; a frame that is continued from
+    # what an earlier summary call stored keeps that call's agg_pred next to this call's bounds. Same structural fact as C12.R7.
+    n7 = ctx.borrow("C12", "C12.R7.", "C08.R7.", "the summary of one call would carry the prediction of another: not within its own bounds, not base + weights")
+    ctx.sites("C08.R7", n7, 1, "summary-fresh obligation restated from C12.R7")
